@@ -76,7 +76,7 @@ def build_driver(chk):
 def run_model(chk, kind, cases, shards=None):
     """Run the extracted model on harness cases (dicts with "kind").  Returns a list of result
     dicts aligned with `cases`, or None when the model cannot be run (a broken tie is recorded)."""
-    if kind not in ("dec_stream", "dec_subset", "struct"):
+    if kind not in ("dec_stream", "dec_subset", "struct", "spec_stream"):
         return None
     exe = build_driver(chk)
     if exe is None:
@@ -88,7 +88,7 @@ def run_model(chk, kind, cases, shards=None):
     chunks = [cases[i::n] for i in range(n)]
 
     def work(chunk):
-        data = "\n".join(json.dumps(c) for c in chunk) + "\n"
+        data = "\n".join(json.dumps(dict(c, kind=kind)) for c in chunk) + "\n"
         rc, out = sh("ulimit -s unlimited 2>/dev/null || ulimit -s 1000000; exec %s" % exe, stdin=data, timeout=3000)
         lines = [l for l in out.split("\n") if l.startswith("{")]
         if rc != 0 or len(lines) != len(chunk):
